@@ -96,6 +96,32 @@ Theorem C11_range_parts_in_type :
 Proof. exact compile_range_parts_ok. Qed.
 Print Assumptions C11_range_parts_in_type.
 
+(* C11_range_inherits_all_parts: typedefs that restate no range / length (for strings also those that add only a
+   pattern: the C code copies the inherited length with lysc_range_dup) hand the restriction of their base down with
+   ALL its parts, however many; such a level can be dropped from a chain without changing the result. Tie: chain cases
+   with levels ~ and ~p of impl/t_restrict.c. *)
+Theorem C11_range_inherits_all_parts :
+  forall ty base k, compile_chain ty base (repeat None k) = Ok base.
+Proof. exact chain_inherits_all. Qed.
+Print Assumptions C11_range_inherits_all_parts.
+
+Theorem C11_range_unrestricted_level_neutral :
+  forall ty base rs1 rs2, compile_chain ty base (rs1 ++ None :: rs2) = compile_chain ty base (rs1 ++ rs2).
+Proof. exact chain_skip_unrestricted. Qed.
+Print Assumptions C11_range_unrestricted_level_neutral.
+
+(* regression Example for a copy that keeps only the FIRST part (seeded change C11-5): under the length 1..3 | 6..8 | 12
+   the inherited restriction accepts the length 6 and the narrowing 2..3 | 6..7 compiles; with the truncated copy
+   [firstn 1] the length 6 is rejected and the same narrowing is refused - so first-part-only is refuted as inheritance *)
+Example C11_range_first_part_copy_refuted :
+  let base := [(1, 3); (6, 8); (12, 12)]%Z in
+  let narrow := [50; 46; 46; 51; 32; 124; 32; 54; 46; 46; 55] in
+  compile_chain RLen base [None] = Ok base /\
+  validate_range base 6 = true /\ validate_range (firstn 1 base) 6 = false /\
+  compile_chain RLen base [None; Some narrow] = Ok [(2, 3); (6, 7)]%Z /\
+  compile_range RLen (firstn 1 base) narrow = Err E_BASE.
+Proof. exact first_part_copy_differs. Qed.
+
 (* regression: the witnesses of the statements that were refuted up to round 2 (1 50 under 1..10, 5 1, 1|| with and
    without a base, min5, 5max) are rejected now *)
 Example C11_range_former_witnesses :
